@@ -63,9 +63,11 @@ META = {
                              "the x86-64 build configuration of this host is the one whose objects are rebuilt; AArch64 / ARMv6-M objects are not built offline (their sources contain no data sections: not checked mechanically)",
                              "the dispatch pointers are written only by their static initialisers (AST: no assignment anywhere)"]),
     "C03": dict(level="proof", assumptions=[
-        "tools/asmlift.py (x86-64 subset: mov add adc sub sbb cmp neg xor and or mul mulx adcx adox imul push pop jcc ret seto) and its instruction semantics table are trusted; the lifted text is regenerated from objdump of the object assembled from /repo's .s on every run; native replay runs the REAL assembled routine",
-        "covered configurations: x86-64 bigint.s (bigint_384_add / subtract / multiply2, fpbase_384_add / subtract / multiply2) against the SAME contract text as the portable C++ routines (C02), out aliased to the first operand or not, plus stack balance and callee-saved registers",
-        "NOT covered (reported, never claimed): multiply.s and multiply_bmi2_adx.s (768-bit multiply / square / Montgomery reduction -- thorough-tier units with products as the uninterpreted symbol M exist, see their status in units[]), the CPUID probe and run-time dispatch, AArch64 and ARMv6-M sources, a true 32-bit-word extraction of the portable code",
+        "tools/asmlift.py (x86-64 subset: mov add adc sub sbb cmp neg xor and or mul mulx adcx adox imul push pop jcc ret seto) and tools/asmword.py with their instruction semantics tables are trusted; the instruction text is regenerated from objdump of the object assembled from /repo's .s on every run; native replay runs the REAL assembled routine",
+        "bigint.s (bigint_384_add / subtract / multiply2, fpbase_384_add / subtract / multiply2): CBMC against the SAME contract text as the portable C++ routines (C02), out aliased to the first operand or not, plus stack balance and callee-saved registers",
+        "multiply.s and multiply_bmi2_adx.s (bigint_768_multiply, bigint_768_square, fpbase_384_montgomery_reduce, both variants): WORD back end over the machine code; products / squares are exact polynomial identities for all operands; Montgomery reduction for p = q, inv = the library's constant, t < p*R: identity exact on every path, result < p by z3 (linear arithmetic over the rationals on the recorded word-range facts: sound for the integers); carries that an interval cannot exclude are excluded by the same prover or stay symbolic",
+        "result and operands of the 768-bit routines are distinct objects (the C++ signatures say __restrict; call sites: C18)",
+        "NOT covered (reported, never claimed): the CPUID probe and the run-time dispatch pointers of runtime.cpp, AArch64 and ARMv6-M sources, a true 32-bit-word extraction of the portable code",
         "bit-identity of the back ends is the corollary of every back end meeting the same deterministic postcondition"]),
     "C07": dict(level="proof", assumptions=GROUP_ASSUME + [
         "GT in the exponent view: multiply / square_cyclotomic / conjugate / inverse act as +, *2, -, - on discrete logs (C04 for the field operations; Granger-Scott squaring and conj = inverse on the cyclotomic subgroup are trusted)",
